@@ -310,6 +310,24 @@ def shape_functions(tier, mapref=None):
     if mapref:
         ndis[0] = mapping_groups(grp, mapref)
     shape_functions.mapref_disagreements = ndis[0]
+    # ---- foreach over a mapping with global / local loop variables (and locals around them that must stay intact)
+    for kk, vv in ((7, 70), ("a", 1)):
+        kl, vl = lit(R.I(kk) if isinstance(kk, int) else R.S([ord(c) for c in kk])), lit(R.I(vv))
+        exp = R.A([R.I(kk) if isinstance(kk, int) else R.S([ord(c) for c in kk]), R.I(vv), R.I(77), R.I(88)])
+        grp(exp, [("ll", "mixed @F() { int g1 = 77; mixed k, v; int g2 = 88; mapping m = ([ %s : %s ]); foreach (k, v in m) ; return ({ k, v, g1, g2 }); }" % (kl, vl)),
+                  ("gl", "mixed @F() { int g1 = 77; mixed v; int g2 = 88; mapping m = ([ %s : %s ]); foreach (g3, v in m) ; return ({ g3, v, g1, g2 }); }" % (kl, vl)),
+                  ("lg", "mixed @F() { int g1 = 77; mixed k; int g2 = 88; mapping m = ([ %s : %s ]); foreach (k, g4 in m) ; return ({ k, g4, g1, g2 }); }" % (kl, vl)),
+                  ("gg", "mixed @F() { int g1 = 77; int g2 = 88; mapping m = ([ %s : %s ]); foreach (g3, g4 in m) ; return ({ g3, g4, g1, g2 }); }" % (kl, vl)),
+                  ("keys", "mixed @F() { int g1 = 77; mixed k, v; int g2 = 88; mapping m = ([ %s : %s ]); foreach (k in keys(m)) v = m[k]; return ({ k, v, g1, g2 }); }" % (kl, vl))])
+    # ---- a float compared with zero: literal 0, variable 0, either side, typed and mixed
+    for fv, e in (("0.0", 1), ("1.5", 0), ("-0.0", 1)):
+        grp(R.I(e), [("lit", "mixed @F() { float z = %s; return z == 0; }" % fv),
+                     ("litl", "mixed @F() { float z = %s; return 0 == z; }" % fv),
+                     ("var", "mixed @F() { float z = %s; int i = 0; return z == i; }" % fv),
+                     ("mixedv", "mixed @F() { mixed z = %s; return z == 0; }" % fv),
+                     ("glob", "mixed @F() { g0 = %s; return g0 == 0; }" % fv),
+                     ("notne", "mixed @F() { float z = %s; return !(z != 0); }" % fv),
+                     ("cond", "mixed @F() { float z = %s; if (z == 0) return 1; return 0; }" % fv)])
     # ---- loop forms: sum of f(i) for i in 0..n-1
     for n in (0, 1, 2, 5, 300):
         for body, f in (("acc += i", lambda i: i), ("acc = acc * 3 + i", None), ("acc ^= (i << 3)", None)):
